@@ -215,7 +215,31 @@ var handPrograms = []string{
 	"sub vcl_recv {\n#FASTLY RECV\n  call a;\n  return(lookup);\n}\nsub vcl_recv {\n#FASTLY RECV\n  call b;\n  return(lookup);\n}\nsub a { set req.http.A = \"1\"; }\nsub b { set req.http.B = \"1\"; }\n",
 }
 
+// odd shapes of the dotted variable families that are resolved by name components (ratecounter.NAME.bucket.10s,
+// backend.NAME.healthy, director.NAME.healthy, req.http.NAME:key, re.group.N, var.NAME)
+func shapePrograms() []string {
+	names := []string{
+		"ratecounter.rc.foo.10s", "ratecounter.rc.bucket.99s", "ratecounter.rc.bucket", "ratecounter.rc", "ratecounter.nosuch.bucket.10s", "ratecounter.rc.rate.1s.extra",
+		"ratecounter.rc.rate.foo", "ratecounter..bucket.10s", "ratecounter.rc.bucket.", "ratecounter.rc..10s", "ratecounter.pb.bucket.10s",
+		"backend.be.healthy", "backend.be.nosuch", "backend.nosuch.healthy", "backend.be", "backend.be.connections_open.extra", "backend..healthy",
+		"director.dr.healthy", "director.dr.nosuch", "director.nosuch.healthy", "director.dr", "director.be.healthy",
+		"req.http", "req.http.A:", "req.http.A:b:c", "req.http.:k", "re.group.x", "re.group", "re.group.99999999999999999999", "re.group.-1",
+		"var", "var.nosuch.deep", "client.geo.nosuch", "client.geo", "tls.client.nosuch", "table.tb", "acl.ac", "penaltybox.pb", "obj.http", "beresp.http.X:y",
+		"fastly.ff.visits_this_service.extra", "req", "now.sec.extra", "math.PI.x", "goto", "rc", "be", "dr",
+	}
+	decls := "ratecounter rc { }\npenaltybox pb { }\nbackend be { .host = \"a.example.com\"; }\ndirector dr random { { .backend = be; .weight = 1; } }\ntable tb { \"a\": \"b\" }\nacl ac { \"192.0.2.1\"; }\n"
+	var out []string
+	for _, n := range names {
+		body := fmt.Sprintf("  set req.http.X = %s;\n  if (%s) { log \"t\"; }\n  log %s;\n  set %s = \"v\";\n  unset %s;\n  declare local var.i INTEGER;\n  set var.i = %s;\n  if (%s > 1) { log \"g\"; }\n  set req.http.Y = std.itoa(%s);\n", n, n, n, n, n, n, n, n)
+		out = append(out, decls+"sub vcl_recv {\n#FASTLY RECV\n"+body+"  return(lookup);\n}\nsub vcl_deliver {\n#FASTLY DELIVER\n"+body+"}\n")
+	}
+	return out
+}
+
 func genCases(g *fw.GenCtx) {
+	for i, h := range shapePrograms() {
+		g.Emit("hand", lcase{Source: h, Name: fmt.Sprintf("shape-%d", i), Reps: 4})
+	}
 	for _, s := range seeds.Load(g.Repo, g.Verif) {
 		if len(s.Text) > 300000 {
 			continue
